@@ -223,6 +223,20 @@ def gen_grid(ctx, V, rng, npairs):
                     obs.append(Obs(code, exp, key + '|value', '%s a=%s; a %s= %s' % (cname(tl), a[1], op, b[1])))
                 if n:
                     cells += 1
+    # simple assignment: the value of `a = b` is the value of a after the assignment (b converted to the type of a), also when chained or widened
+    for tl in ALL:
+        for tr in ALL:
+            key = 'C01|assign|=|%s|%s' % (tl, tr)
+            n = 0
+            for _ in range(max(2, npairs // 4)):
+                b = V.pick(rng, tr)
+                res = convert(tl, b[3])
+                n += 1
+                code = lambda i, tl=tl, b=b: ('{ %s a = 0; long w = (a = %s); typeof(a = %s) r = (a = %s); long c; %s a2 = 0; c = a2 = a = %s; OUTV(%d, w); OUT(%d, &r, sizeof r); OUTV(%d, c); OUTV(%d, sizeof(a = %s)); }'
+                                              % (cname(tl), b[1], b[1], b[1], cname(tl), b[1], i, i, i, i, b[1]))
+                exp = lambda i, tl=tl, res=res: ['%d=%d' % (i, convert('i64', res)), '%d:%s' % (i, hexb(tl, res)), '%d=%d' % (i, convert('i64', res)), '%d=%d' % (i, sizeof(tl))]
+                obs.append(Obs(code, exp, key + '|value', '%s a; a = %s' % (cname(tl), b[1])))
+            cells += 1
     for t in ALL:
         for form in ('++a', '--a', 'a++', 'a--'):
             key = 'C01|incdec|%s|%s|-' % (form, t)
